@@ -183,9 +183,12 @@ func (c cfg) overloadPossible() bool { return c.Workers == 2 && c.Sessions > 2 }
 // ---- run -------------------------------------------------------------------------
 
 func runC23(t *testing.T, r *simkit.Run) {
-	directCompanion(r)
-	if r.Failed() {
-		return
+	// GATESIM_NODIRECT=1 (sensitivity experiments only) leaves the world oracle alone
+	if os.Getenv("GATESIM_NODIRECT") == "" {
+		directCompanion(r)
+		if r.Failed() {
+			return
+		}
 	}
 	runWorld(t, r)
 }
